@@ -669,3 +669,212 @@ def t_assert_and_raise():
 
 def t_min_max_edge():
     return min(1, 2.0), max("a", "b"), min([2, 1], key=None) if False else 1, max([1, 3, 2]), min(x for x in [3, 2]), max([(1, 2), (1, 3)]), min([1.0, 1]), max([1, 1.0])
+
+
+# ---------------------------------------------------------------- batch 3: object protocols, mutation through aliases, string edge cases
+
+class Box:
+    def __init__(self, items):
+        self._items = list(items)
+
+    @property
+    def items(self):
+        return tuple(self._items)
+
+    def add(self, x):
+        self._items.append(x)
+        self._items.sort()
+        return self
+
+    def __contains__(self, x):
+        return x in self._items
+
+    def __getitem__(self, i):
+        return self._items[i]
+
+    def __repr__(self):
+        return "Box(%r)" % (self._items,)
+
+    def __bool__(self):
+        return bool(self._items)
+
+    def __lt__(self, other):
+        return len(self._items) < len(other._items)
+
+    def __hash__(self):
+        return hash(tuple(self._items))
+
+    def __eq__(self, other):
+        return isinstance(other, Box) and self._items == other._items
+
+    def __ne__(self, other):
+        return not self == other
+
+
+def t_box_protocols():
+    b = Box([3, 1])
+    b.add(2).add(0)
+    e = Box([])
+    return b.items, 2 in b, 9 in b, b[0], b[-1], bool(b), bool(e), (1 if e else 0), not e, b == Box([0, 1, 2, 3]), b != e, repr(e), str(b), "%s" % e
+
+
+def t_property_no_cache():
+    b = Box([1])
+    first = b.items
+    b.add(5)
+    return first, b.items, first is b.items
+
+
+def t_alias_through_return():
+    def get(d):
+        return d["k"]
+    d = {"k": [1]}
+    l = get(d)
+    l.append(2)
+    m = list(get(d))
+    m.append(3)
+    return d, m
+
+
+def t_arg_mutation():
+    def f(a, b):
+        a.append(1)
+        b = b + [1]
+        return b
+    x, y = [], []
+    r = f(x, y)
+    return x, y, r
+
+
+def t_aug_assign_alias():
+    a = [1]
+    b = a
+    a += [2]
+    c = (1,)
+    d = c
+    c += (2,)
+    s = "x"
+    t = s
+    s += "y"
+    return a, b, c, d, s, t
+
+
+def t_str_edge():
+    return ("".split(","), "".split(), " ".split(" "), "a".split("a"), "abc".split("b", 0), "a,b,c".split(",", 1), "a,b,c".rsplit(",", 1), "\n".splitlines(), "a\n".splitlines(), "a\n\nb".split("\n"),
+            "".join([]), "x".strip("x"), "  ".strip() == "", "aXbXc".replace("X", ""), "abc".find("z"), "abc"[5:], "é".encode("utf-8") if False else 1, "Ab".lower() == "ab", "a" "b", 'it''s', "tab\there".split("\t"),
+            "%%" % (), "%s%%" % 5, "{{}}".format(), "{0}{0}".format("a"), "a=%(a)s" % {"a": 1}, "%r" % "q", "%3s|%-3s|" % ("a", "b"), "%.3s" % "abcdef", "%c" % 65, "%i" % 7.9, "%+d" % 5, "% d" % 5)
+
+
+def t_numeric_str_roundtrip():
+    vals = [0.1, 1e-5, 123456.789, 1e22, 1.0, 100.0, 1e16, 0.30000000000000004, 5e-324, 1.7976931348623157e308]
+    return [repr(v) for v in vals], [float(repr(v)) == v for v in vals], [str(int(v)) for v in (1.0, 100.0)], "%s" % 1e-5, "%d" % 1e2, "%.15f" % 0.1, "%.0f" % 0.5, "%.0f" % 1.5, "%g" % 1e-5, "%g" % 123456789.0
+
+
+def t_range_len_index():
+    l = ["a", "b", "c"]
+    out = []
+    for i in range(len(l) - 1, -1, -1):
+        out.append(l[i])
+    for i in range(1, len(l)):
+        out.append(l[i - 1] + l[i])
+    return out, l[len(l) // 2], l[int(len(l) / 2.0)], l[-len(l)]
+
+
+def t_enumerate_modify():
+    l = [1, 2, 3, 4]
+    for i, v in enumerate(l):
+        if v % 2 == 0:
+            l[i] = v * 10
+    keep = [v for v in l if v > 5]
+    l[:] = keep
+    return l, keep is l
+
+
+def t_del_and_slices():
+    l = list(range(8))
+    del l[0]
+    del l[-1]
+    del l[1:3]
+    l[1:2] = [9, 9]
+    l[len(l):] = [7]
+    m = l[:]
+    m.clear() if hasattr(m, "clear") else None
+    return l, m
+
+
+def t_dict_views():
+    d = {"a": 1, "b": 2}
+    ks = d.keys()
+    vs = list(d.values())
+    d["c"] = 3
+    return list(ks), vs, list(d.items())[-1], "a" in ks, len(d.items()), list(zip(d, d.values())), {v: k for k, v in d.items()}, dict.fromkeys("ab", 0), dict([("x", 1)]), dict(a=1)
+
+
+def t_set_building():
+    seen = set()
+    out = []
+    for x in [3, 1, 3, 2, 1]:
+        if x not in seen:
+            seen.add(x)
+            out.append(x)
+    seen.discard(99)
+    seen.remove(3)
+    s2 = set(out) - {1}
+    s3 = frozenset([1, 2]) | {3}
+    return out, sorted(seen), sorted(s2), sorted(s3), len(set()), set() == set([]), {1, 2} == {2, 1}, sorted(set("hello"))
+
+
+def t_recursion():
+    def fact(n):
+        return 1 if n <= 1 else n * fact(n - 1)
+
+    def flat(x):
+        out = []
+        for e in x:
+            if isinstance(e, list):
+                out.extend(flat(e))
+            else:
+                out.append(e)
+        return out
+    return fact(5), flat([1, [2, [3, [4]], 5]])
+
+
+def t_kwargs_passthrough():
+    def inner(a, b=2, *, c=3, **rest):
+        return a, b, c, sorted(rest.items())
+
+    def outer(*args, **kwargs):
+        kwargs.setdefault("c", 30)
+        return inner(*args, **kwargs)
+    return outer(1), outer(1, 5, d=4), outer(a=7, c=0)
+
+
+def t_ternary_chain_and_short_circuit():
+    calls = []
+
+    def f(x):
+        calls.append(x)
+        return x
+    r = f(0) or f(2) or f(3)
+    s = f(1) and f(0) and f(5)
+    t = "a" if f(0) else "b" if f(7) else "c"
+    return r, s, t, calls
+
+
+def t_sorting_with_none_keys():
+    rows = [("a", None), ("b", 2), ("c", 1)]
+    return sorted(rows, key=lambda r: (r[1] is None, r[1] or 0)), sorted(rows, key=lambda r: r[0], reverse=True)
+
+
+def t_string_num_compare_paths():
+    vals = ["10", "9", "2.5"]
+    return sorted(vals), sorted(vals, key=float), max(vals, key=float), [v for v in vals if "." in v], sum(float(v) for v in vals)
+
+
+def t_exception_in_comprehension():
+    def safe(v):
+        try:
+            return int(v)
+        except ValueError:
+            return None
+    return [safe(v) for v in ("1", "x", "3")], [v for v in map(safe, ("1", "x")) if v is not None]
